@@ -115,6 +115,7 @@ package rr
 //@   loop 5 invariant 0 <= day && day <= nDays && len(UH1) == n1 && len(UH2) == n2
 //@   loop 5 invariant implies(day < nDays, rainfall.at(day) >= 0 && pet.at(day) >= 0)
 //@   loop 5 invariant [C10.gr4j-stores] 0 <= S && S <= x1 && R >= 0
+//@   assert at "idx := []int{0}" [C10.gr4j-uh-ordinates-sum-to-one] using C10.lemma-uh1-telescopes(UH1, x4, n1); C10.lemma-uh2-telescopes(UH2, x4, n2) : asum(UH1, n1) == 1 && asum(UH2, n2) == 1
 //@   loop 5 step Ps == gr4jPs(pre(S), x1, rainfall.at(day), pet.at(day)) && Es == gr4jEs(pre(S), x1, rainfall.at(day), pet.at(day))
 //@   loop 5 step Perc == gr4jPerc(gr4jS1(pre(S), x1, rainfall.at(day), pet.at(day)), x1)
 //@   loop 5 step [C15.effective-rainfall] Pr == gr4jPr(pre(S), x1, rainfall.at(day), pet.at(day))
@@ -124,6 +125,9 @@ package rr
 //@   loop 5 step [C15.routing-store] post(R) == gr4jR1(pre(R), pre(q9State[0]) + gr4jPr(pre(S), x1, rainfall.at(day), pet.at(day))*0.9*UH1[0], x2, x3) - gr4jQr(gr4jR1(pre(R), pre(q9State[0]) + gr4jPr(pre(S), x1, rainfall.at(day), pet.at(day))*0.9*UH1[0], x2, x3), x3)
 //@   loop 5 step [C15.runoff] runoff.at(day) == gr4jQr(gr4jR1(pre(R), pre(q9State[0]) + gr4jPr(pre(S), x1, rainfall.at(day), pet.at(day))*0.9*UH1[0], x2, x3), x3) + max(0.0, pre(q1State[0]) + gr4jPr(pre(S), x1, rainfall.at(day), pet.at(day))*0.1*UH2[0] + gr4jF(pre(R), x2, x3))
 //@   loop 5 step [C10.gr4j-runoff-nonneg] runoff.at(day) >= 0
+//@   loop 5 step instantiate C10.lemma-asum-shift-add(pre(seq(q9State)), q9State, UH1, Pr*0.9, n1 - 1)
+//@   loop 5 step instantiate C10.lemma-asum-shift-add(pre(seq(q1State)), q1State, UH2, Pr*0.1, n2 - 1)
+//@   loop 5 step [C10.gr4j-closure] implies(asum(UH1, n1) == 1 && asum(UH2, n2) == 1 && x2 == 0 && pet.at(day) == 0 && Q1 >= 0 && Q9 >= 0, rainfall.at(day) == runoff.at(day) + (post(S) - pre(S)) + (post(R) - pre(R)) + (asum(q9State, n1) - pre(asum(q9State, n1))) + (asum(q1State, n2) - pre(asum(q1State, n2))))
 //@   loop 6 invariant 0 <= i && i <= n1
 //@   loop 6 invariant forall(k, 0, i, q9State[k] == pre(q9State[k]) + (Pr*0.9*UH1[k])) && forall(k, i, n1, q9State[k] == pre(q9State[k]))
 //@   loop 6 invariant forall(k, 0, n2, q1State[k] == pre(q1State[k]))
@@ -164,6 +168,11 @@ package rr
 //@   loop 0 step [C10.sac-runoff-nonneg] runoff.at(timestep) >= 0 && baseflow.at(timestep) >= 0
 
 //@ spec asum(a []real, n int) real = ite(n <= 0, 0.0, asum(a, n-1) + a[n-1])
+// unit-hydrograph ordinates are differences of the S-curve: their sum telescopes
+//@ induct [C10.lemma-uh1-telescopes] (u []real, x4 real) n : implies(forall(k, 0, n, u[k] == gr4jSS1(real(k+1), x4) - gr4jSS1(real(k), x4)), asum(u, n) == gr4jSS1(real(n), x4) - gr4jSS1(0.0, x4))
+//@ induct [C10.lemma-uh2-telescopes] (u []real, x4 real) n : implies(forall(k, 0, n, u[k] == gr4jSS2(real(k+1), x4) - gr4jSS2(real(k), x4)), asum(u, n) == gr4jSS2(real(n), x4) - gr4jSS2(0.0, x4))
+// the sum of a buffer that was shifted down by one place after c*u was added to it
+//@ induct [C10.lemma-asum-shift-add] (a []real, b []real, u []real, c real) m : implies(forall(k, 0, m, b[k] == a[k+1] + c*u[k+1]), asum(b, m) == asum(a, m+1) - a[0] + c*(asum(u, m+1) - u[0]))
 
 //@ func sumSlice(s) returns (sum)
 //@   locals v
